@@ -180,8 +180,15 @@ def run(tier):
         outcomes["accepted"] = outcomes.get("accepted", 0) + 1
         reser = json.loads(r["reser"])
         problems = []
-        if set(reser) != {"data", "errors", "extensions"}:
+        if not set(reser) <= {"data", "errors", "extensions"}:
             problems.append("members %s" % sorted(reser))
+        # how `None` is written (explicit null or member left out) is not part of the property
+        for k in ("data", "errors", "extensions"):
+            reser.setdefault(k, None)
+        for e in (reser["errors"] or []):
+            if isinstance(e, dict):
+                for k in ("locations", "path", "extensions"):
+                    e.setdefault(k, None)
         if t == "gen" and isinstance(model["data"], dict):
             diffs = ex.compare(ENV_DOC.ops[0], model["data"], reser.get("data"))
             if diffs:
@@ -210,7 +217,10 @@ def run(tier):
             rep.violation("spec_shaped_error_rejected", label, r)
             continue
         problems = []
-        if not same_json(json.loads(r["reser"]), me):
+        er = json.loads(r["reser"])
+        for k in ("locations", "path", "extensions"):
+            er.setdefault(k, None)
+        if not same_json(er, me):
             problems.append("reser %s != %s" % (r["reser"][:200], json.dumps(me)[:200]))
         if not r["roundtrip_equal"]:
             problems.append("roundtrip")
